@@ -125,7 +125,7 @@ def run(ctx):
     ctx.log("direct reads: %d cases judged, %.0fs" % (n_reads, time.time() - t0))
     # ---- two-pass in-vivo runs
     t0 = time.time()
-    items = liq_items(ctx, ctx.pick(112, 2800))
+    items = liq_items(ctx, ctx.pick(252, 6000))
     res = run_isolated(mt.run_liq_case, items)
     traces, stats, skipped = [], {}, []
     for it, r in zip(items, res):
